@@ -63,17 +63,15 @@ Example mem_linearizable_instance :
   end.
 Proof. vm_compute. reflexivity. Qed.
 
-(* ------------------------------------------------------------------ statements NOT proved *)
+(* ------------------------------------------- statements proved elsewhere or NOT proved (see each comment) *)
 
 (** Quiescent accounting (audit aud-store item 4): when everything has finished, the enforcer's book is exactly the
     live messages, curSize is their total and the total is within the limit — for every cap, limit and schedule,
     deliveries carrying pairwise distinct tags (a tag stands for the identity of the Message object).
-    PROVED (Proofs/ConcMemQuiesce.v, ConcMemOwn.v, ConcMemOwnEnf.v: mem_quiescent_book_exact): clauses 2, 3, 4 —
-    the book has no duplicates, curSize = its total (two-sided, by a linear-ownership invariant for tags), and
-    curSize <= max.  NOT PROVED: clause 1, the book's tags are exactly the tags in the mailboxes; it needs, on top
-    of the ownership invariant, that a tag determines (mailbox, id) and vice versa across mailboxes, book and
-    notices (the enforcer removes by (mailbox, id)).  The runner evaluates the whole statement on the model's final
-    state of every forced schedule with a size limit (verdict fail:model-quiescence-statement-refuted). *)
+    PROVED: Proofs/ConcMemQuiesceAll.v (mem_quiescent_accounting_holds), from a linear-ownership invariant for tags
+    (ConcMemOwn*.v), the commit log read as a registry tag <-> (mailbox, id) (ConcMemReg.v), distinct ids
+    (ConcMemIds.v) and curSize <= max outside the eviction loop (ConcMemQuiesce.v).  The runner still evaluates
+    the statement on the model's final state of every forced schedule with a size limit. *)
 Definition add_tags_of (ops : list op) : list N := flat_map (fun o => match o with OAdd _ g _ => [g] | _ => [] end) ops.
 Definition live_tags (s : msys) : list N := flat_map (fun kb => map m_tag (b_msgs (x_box (snd kb)))) (s_boxes s).
 Definition book_tags (s : msys) : list N := map (fun k => m_tag (snd k)) (e_all (s_enf s)).
